@@ -6,8 +6,9 @@
 //
 // Documented deviations are neutralised by construction of the harness, never
 // by exceptions in the comparison:
-//   - gas price 0; the reference runs with ample gas (2^40) and the in-tree EVM
-//     with an ample budget (EVMGasLimit 2^40);
+//   - gas price 0; the reference runs with ample gas and the in-tree EVM with the
+//     same amount as its budget (EVMGasLimit): 2^40 for the call graphs, 2^33
+//     for the flat families (see ampleGasFlat for why not more);
 //   - the GAS opcode only ever appears as the gas operand of a CALL-family
 //     instruction (the reference then forwards 63/64 of ample gas, the in-tree
 //     code ignores the operand);
@@ -349,7 +350,14 @@ func (d *driver) disagreement(k *txCase, r *pairResult) {
 
 func (d *driver) sample(k *txCase, r *pairResult) {
 	if atomic.AddInt64(&d.n, 1)%7919 == 1 && r.excluded == "" {
-		d.samples.Add(map[string]interface{}{"case": k.Label, "config": k.Mode, "class": r.ref.Class, "return": trunc(hexs([]byte(r.ref.Ret)), 80), "agree": r.differs == ""})
+		code := ""
+		for _, a := range k.Pre {
+			if a.Addr == addrA {
+				code = trunc(hexs(a.Code), 160)
+			}
+		}
+		d.samples.Add(map[string]interface{}{"family": k.Family, "case": k.Label, "config": k.Mode, "code_of_called_contract": code, "calldata": trunc(hexs(k.Input), 80),
+			"reference_class": r.ref.Class, "reference_return": trunc(hexs([]byte(r.ref.Ret)), 80), "reference_steps": r.ref.Meter.Steps, "agree": r.differs == ""})
 	}
 }
 
@@ -686,7 +694,7 @@ func main() {
 	cov["exhaustive"] = exhaustive
 	cov["exhaustive_note"] = "family 1: full operand product for arity <= 3 (quick tier: <= 2), pairwise-covering orthogonal array (169 tuples) + all-equal tuples for arity 4..6 (opcodes listed in family1_opcode_x_operands); family 2: every token sequence up to max_length_completed; family 3: every listed combination"
 	cov["bounds"] = map[string]interface{}{"family2_max_len": maxLen, "family2_app_config_max_len": appLen, "family2_time_cap_s": 600, "family2_all_six_variants_below_length": reduceFrom,
-		"work_limit_gas_families_1_3": workLimitDefault, "work_limit_gas_family_2": workLimitShort, "ample_gas": ampleGas}
+		"work_limit_gas_families_1_3": workLimitDefault, "work_limit_gas_family_2": workLimitShort, "ample_gas_family_3": ampleGas, "ample_gas_families_1_2": ampleGasFlat}
 	cov["rule"] = "a case = one transaction (pre-state, callee or creation, call data) executed on the in-tree EVM and on upstream go-ethereum v1.8.27 (Constantinople without Petersburg) in one binary; cases: (1) every opcode byte x boundary operand tuples, executed as the called contract, behind a CALL and behind a STATICCALL, (2) every sequence of <= max_length tokens of a 47-token alphabet between a prologue pushing two words and an epilogue returning memory[0:64], top of stack, MSIZE and keccak(memory), x 3 call data x 2 pre-states (programs of the longest length: only the variants they can observe syntactically - call data variants iff a CALLDATA* token occurs, pre-state variants iff SLOAD/SSTORE/SELFDESTRUCT occurs), (3) caller {CALL,CALLCODE,DELEGATECALL,STATICCALL,CREATE,CREATE2} x value {0,1} x callee {self, two contracts, precompiles 1-8 x 7 inputs, nonexistent, plain account} x 19 callee bodies x 19 inner bodies (depth 3) x caller balance / address collision, plus creation transactions; each under the in-tree chain configs 'aligned' (all forks at block 0) and 'app' (params.MainnetChainConfig as chain/app/evm uses it); distinct_nontrivial counts distinct reference outcome records (class, return data, logs, self-destructs, accounts/nonces/balances/storage, code length)"
 	cov["samples"] = d.samples.List()
 	run.Notes = append(run.Notes, fmt.Sprintf("wall: family1 %.1fs family3 %.1fs family2 %.1fs family2(app) %.1fs", s1["wall_s"], s3["wall_s"], s2["wall_s"], s2b["wall_s"]))
